@@ -40,6 +40,10 @@ func (e *shEncoder) Encode(writer io.Writer, node *CandidateNode) error {
 // put any (shell-unsafe) characters into a single-quoted block, close the block lazily
 func (e *shEncoder) encode(input string) string {
 	const quote = '\''
+	if input == "" {
+		// an empty string must still be one (empty) shell word
+		return "''"
+	}
 	var inQuoteBlock = false
 	var encoded strings.Builder
 	encoded.Grow(len(input))
